@@ -158,6 +158,33 @@ func fidEnc(vid uint32, key uint64, cookie uint32) gen {
 			fmt.Sprintf("fide:%d.%x.%x", vid, key, cookie), key != 0
 	}}
 }
+// formatNeedleIdCookie(key, cookie) [+ "_" + delta] through Needle.ParsePath
+func pathEnc(key uint64, cookie uint32, delta int64) gen {
+	return gen{"parse-path-encode", func() (string, string, bool) {
+		s := needle.NewFileId(0, key, cookie).GetNeedleIdCookie()
+		d := "None"
+		if delta >= 0 {
+			s += fmt.Sprintf("_%d", delta)
+			d = fmt.Sprintf("(Some %d%%N)", delta)
+		}
+		n := new(needle.Needle)
+		err := n.ParsePath(s)
+		r := "None"
+		if err == nil {
+			r = fmt.Sprintf("(Some (%d, %d)%%N)", uint64(n.Id), uint32(n.Cookie))
+		}
+		return fmt.Sprintf("KPathEnc %d %d %s %s %s", key, cookie, d, pk([]byte(s)), r), fmt.Sprintf("pathe:%x.%x.%d", key, cookie, delta), key != 0
+	}}
+}
+
+// LoadTTLFromUint32 of an arbitrary integer, and ToUint32 of the result
+func ttlU32(x uint32) gen {
+	return gen{"ttl-u32-decode", func() (string, string, bool) {
+		t := needle.LoadTTLFromUint32(x)
+		return fmt.Sprintf("KTtlU32 %d %s %d", x, coqTtl(t), t.ToUint32()), fmt.Sprintf("ttlu:%d", x), x != 0
+	}}
+}
+
 func pathStr(s string) gen {
 	return gen{"parse-path", func() (string, string, bool) {
 		n := new(needle.Needle)
@@ -186,6 +213,13 @@ func pbOracle(b []byte) string {
 }
 
 func readSb(file []byte) string {
+	r, _, _ := readSbFull(file)
+	return r
+}
+
+// readSbFull: ReadSuperBlock of a temp file with these bytes; also returns the super block and
+// the marshalled extra of the result (nil on error)
+func readSbFull(file []byte) (string, *super_block.SuperBlock, []byte) {
 	tmp, err := os.CreateTemp("", "c08-*.dat")
 	hx.Must(err)
 	defer os.Remove(tmp.Name())
@@ -195,14 +229,14 @@ func readSb(file []byte) string {
 	defer df.Close()
 	sb, err := super_block.ReadSuperBlock(df)
 	if err != nil {
-		return "None"
+		return "None", nil, nil
 	}
 	var extra []byte
 	if sb.Extra != nil {
 		extra, err = proto.Marshal(sb.Extra)
 		hx.Must(err)
 	}
-	return "(Some " + coqSb(byte(sb.Version), sb.ReplicaPlacement, sb.Ttl, sb.CompactionRevision, extra) + ")"
+	return "(Some " + coqSb(byte(sb.Version), sb.ReplicaPlacement, sb.Ttl, sb.CompactionRevision, extra) + ")", &sb, extra
 }
 func sbEnc(version byte, dc, rack, same int, c, u byte, comp uint16, extra *master_pb.SuperBlockExtra, label string) gen {
 	return gen{"super-block" + label, func() (string, string, bool) {
@@ -222,7 +256,7 @@ func sbEnc(version byte, dc, rack, same int, c, u byte, comp uint16, extra *mast
 }
 func sbRead(file []byte) gen {
 	return gen{"super-block-read", func() (string, string, bool) {
-		r := readSb(file)
+		r, sb, extra := readSbFull(file)
 		var cand []byte
 		if len(file) >= 8 {
 			end := 8 + int(file[6])<<8 + int(file[7])
@@ -231,27 +265,84 @@ func sbRead(file []byte) gen {
 			}
 			cand = file[8:end]
 		}
-		return fmt.Sprintf("KSbRead %s %s %s %s", pk(file), pk(cand), pbOracle(cand), r), fmt.Sprintf("sbr:%x", file), r != "None"
+		// the decoded super block written again (Bytes) and read again
+		rebytes, pb2, reread := []byte{}, "None", "None"
+		if sb != nil {
+			rebytes = sb.Bytes()
+			pb2 = pbOracle(extra)
+			reread = readSb(rebytes)
+		}
+		return fmt.Sprintf("KSbRead %s %s %s %s %s %s %s", pk(file), pk(cand), pbOracle(cand), r, pk(rebytes), pb2, reread), fmt.Sprintf("sbr:%x", file), r != "None"
 	}}
 }
-func offNum(o types.Offset) uint32 {
+// the number an Offset holds, read from its OffsetToBytes form: 4 bytes big endian, then b4
+func offNum(o types.Offset) uint64 {
 	b := make([]byte, types.OffsetSize)
 	types.OffsetToBytes(b, o)
-	return util.BytesToUint32(b[0:4])
+	v := uint64(util.BytesToUint32(b[0:4]))
+	if types.OffsetSize == 5 {
+		v += uint64(b[4]) << 32
+	}
+	return v
 }
-func idxEnc(key uint64, off uint32, size int32) gen {
+
+// off < 2^32 (4 bytes) / 2^40 (5 bytes): the Offset holding that number
+func mkOffset(off uint64) types.Offset {
+	if types.OffsetSize == 4 {
+		return types.Uint32ToOffset(uint32(off))
+	}
+	return types.ToOffset(int64(off) * int64(types.NeedlePaddingSize))
+}
+func idxEnc(key uint64, off uint64, size int32) gen {
 	return gen{"idx-entry", func() (string, string, bool) {
-		b := needle_map.ToBytes(types.NeedleId(key), types.Uint32ToOffset(off), types.Size(size))
+		b := needle_map.ToBytes(types.NeedleId(key), mkOffset(off), types.Size(size))
 		k, o, s := idx.IdxFileEntry(b)
-		return fmt.Sprintf("KIdx %d %d %s %s (%d%%N, %d%%N, %s)", key, off, hx.Z(int64(size)), pk(b), uint64(k), offNum(o), hx.Z(int64(s))),
+		return fmt.Sprintf("KIdx %d %d %d %s %s (%d%%N, %d%%N, %s)", types.OffsetSize, key, off, hx.Z(int64(size)), pk(b), uint64(k), offNum(o), hx.Z(int64(s))),
 			fmt.Sprintf("idx:%x.%x.%d", key, off, size), true
 	}}
 }
 func offEnc(actual int64) gen {
 	return gen{"offset", func() (string, string, bool) {
 		o := types.ToOffset(actual)
-		return fmt.Sprintf("KOff %d %d %d", actual, offNum(o), o.ToActualOffset()), fmt.Sprintf("off:%d", actual), true
+		return fmt.Sprintf("KOff %d %d %d %d", types.OffsetSize, actual, offNum(o), o.ToActualOffset()), fmt.Sprintf("off:%d", actual),
+			actual%8 == 0 && uint64(actual) < types.MaxPossibleVolumeSize
 	}}
+}
+
+// index entries and offsets at the boundaries of the offset width of this build
+func enumeratedOffsets() []gen {
+	var e []gen
+	offs := []uint64{0, 1, 0xff, 0x100, 0xffffffff}
+	acts := []int64{0, 8, 16, 24, 7, 9, 2040, 2047, 4294967288, 4294967296, 34359738360, 34359738368, 34359738376, 1 << 40, 8796093022200, 8796093022208, 8796093022216, 1 << 50}
+	if types.OffsetSize == 5 {
+		offs = append(offs, 0x100000000, 0x100000001, 0x7fffffffff, 0x8000000000, 0xabcdef0123, 0xffffffffff, 0xff00000000, 0x00ffffffff)
+	}
+	for _, k := range []uint64{0, 0x100000000, 0xffffffffffffffff} {
+		for _, o := range offs {
+			for _, s := range []int32{0, -1, 256, 2147483647, -2147483648} {
+				e = append(e, idxEnc(k, o, s))
+			}
+		}
+	}
+	for _, a := range acts {
+		e = append(e, offEnc(a))
+	}
+	return e
+}
+func randomOffsetGen(r *hx.Rng) gen {
+	lim := uint64(1) << (8 * uint(types.OffsetSize))
+	if r.Chance(1, 2) {
+		return idxEnc(r.Next()>>uint(r.Intn(64)), (r.Next()>>uint(r.Intn(40)))%lim, int32(uint32(r.Next())))
+	}
+	a := int64(r.Next() >> uint(r.Range(18, 60)))
+	switch r.Intn(4) {
+	case 0: // any value, aligned or not
+	case 1: // just around MaxPossibleVolumeSize
+		a = int64(types.MaxPossibleVolumeSize) + int64(r.Range(-64, 64))
+	default:
+		a &^= 7
+	}
+	return offEnc(a)
 }
 
 // the enumerated part: exhaustive small domains, boundary values and the malformed stream
@@ -303,14 +394,28 @@ func enumerated() []gen {
 		}
 		e = append(e, ttlStr(c))
 	}
-	for _, s := range []string{"5x", "5s", "5H", "5D", "5Y", "5W", "5mm", "m5", "mm", "5\x00", "5\xff", "5 m", "m", "h", "x", " ", "5m ", "٥m", "300", "255", "256"} {
+	for _, s := range []string{"5x", "5s", "5H", "5D", "5Y", "5W", "5mm", "m5", "mm", "5\x00", "5\xff", "5 m", "m", "h", "x", " ", "5m ", "٥m", "300", "255", "256",
+		"05m", "+5m", " 5m", "5M", "5m", "+05M", "005", "+0", "0m", "00y", "5\xc2\xb5", "\xef\xbc\x95m", "5m\n", "\t5m", "5.m", "2_5m", "0x5m", "5e0m", "255y", "256y", "+255w", "-0m", "--5m", "+-5m", "5mM", "Mm", "5 ", "y"} {
 		e = append(e, ttlStr(s))
+	}
+	// LoadTTLFromUint32 of integers that are / are not the ToUint32 of a TTL
+	for x := uint32(0); x <= 300; x++ {
+		e = append(e, ttlU32(x))
+	}
+	for _, x := range []uint32{0x0500, 0x0501, 0x0506, 0x0507, 0x05ff, 0xff01, 0xff06, 0xffff, 0x10000, 0x10001, 0x10501, 0x1ff06, 0x00ff0000, 0x80000501, 0xffffffff, 0xffff0000} {
+		e = append(e, ttlU32(x))
 	}
 	for _, s := range []string{"0", "1", "3", "03", "0003", "4294967295", "4294967296", "4294967297", "4294967299", "8589934592", "18446744073709551615", "18446744073709551616", "99999999999999999999999", "", "-1", "+1", " 1", "1 ", "1.0", "0x1", "1_0", "a", "1a", "٣"} {
 		e = append(e, vidStr(s))
 	}
 	for _, v := range []uint32{0, 1, 9, 10, 99, 100, 65535, 65536, 4294967294, 4294967295} {
 		e = append(e, vidEnc(v))
+	}
+	for p10 := uint64(100); p10 <= 1000000000; p10 *= 10 {
+		e = append(e, vidEnc(uint32(p10-1)), vidEnc(uint32(p10)), vidEnc(uint32(p10+1)))
+	}
+	for sh := uint(2); sh < 32; sh++ {
+		e = append(e, vidEnc(uint32(1)<<sh), vidEnc(uint32(1)<<sh-1))
 	}
 	keys := []uint64{0, 1, 0xff, 0x100, 0xffff, 0x10000, 0xffffff, 0x1000000, 0xffffffff, 0x100000000, 0xffffffffff, 0x10000000000, 0xffffffffffff, 0x1000000000000, 0xffffffffffffff, 0x100000000000000, 0xffffffffffffffff, 0x0100000000000001, 0x00ab00cd00ef0001}
 	cookies := []uint32{0, 1, 0xff, 0x100, 0x00ffffff, 0x01000000, 0xffffffff, 0x637037d6}
@@ -320,7 +425,14 @@ func enumerated() []gen {
 		}
 	}
 	for _, v := range []uint32{0, 1, 4294967295} {
-		e = append(e, fidEnc(v, 1, 0x637037d6), fidEnc(v, 0xffffffffffffffff, 0xffffffff))
+		e = append(e, fidEnc(v, 1, 0x637037d6), fidEnc(v, 0xffffffffffffffff, 0xffffffff), fidEnc(v, 0, 0), fidEnc(v, 0, 0xffffffff))
+	}
+	for _, k := range keys {
+		for _, c := range []uint32{0, 0x00ffffff, 0x637037d6, 0xffffffff} {
+			for _, d := range []int64{-1, 0, 1, 7, 1 << 62} {
+				e = append(e, pathEnc(k, c, d))
+			}
+		}
 	}
 	for _, s := range []string{"3,01637037d6", "3,1637037d6", "3,0000000000000001637037d6", "3,00000000000000001637037d6", "3,01637037D6", "3,01637037d6_2", "3,_2",
 		",0123456789", "3,0163703zd6", "3,01_1637037d6", "3,-1637037d6", "3,+1637037d6", "3,1_00000000", "3,100000000", "3,00000000", "3,0000000000", "03,01637037d6", "3,",
@@ -345,22 +457,58 @@ func enumerated() []gen {
 		}
 		e = append(e, sbEnc(v, 0, 1, 2, 15, 3, 7, ec, "-extra"), sbEnc(v, 0, 0, 0, 0, 0, 0, &master_pb.SuperBlockExtra{}, "-empty-extra"), sbEnc(v, 2, 2, 2, 3, 2, 9, big, "-extra"))
 	}
+	// every version byte is accepted (no check in ReadSuperBlock); unknown TTL units too
+	for _, v := range []byte{0, 4, 5, 77, 128, 255} {
+		e = append(e, sbEnc(v, 1, 0, 2, 5, 9, 3, nil, "-odd-version"), sbEnc(v, 0, 1, 0, 0, 7, 65535, ec, "-extra"))
+	}
+	// extra sizes around one and two length bytes, and the largest Bytes() allows (65534)
+	for _, n := range []int{0, 1, 100, 119, 120, 121, 247, 248, 249, 250, 1000, 16370, 16380} {
+		ids := make([]uint32, n)
+		for i := range ids {
+			ids[i] = uint32(i % 128)
+		}
+		e = append(e, sbEnc(3, 0, 0, 1, 1, 1, uint16(n), &master_pb.SuperBlockExtra{ErasureCoding: &master_pb.SuperBlockExtra_ErasureCoding{Data: 10, Parity: 4, VolumeIds: ids}}, "-extra"))
+	}
+	for n := 65540; n > 65400; n-- {
+		m := &master_pb.SuperBlockExtra{ErasureCoding: &master_pb.SuperBlockExtra_ErasureCoding{VolumeIds: make([]uint32, n)}}
+		if b, err := proto.Marshal(m); err == nil && len(b) <= 256*256-2 {
+			out := len(b)
+			e = append(e, sbEnc(2, 2, 0, 0, 255, 6, 65535, m, fmt.Sprintf("-extra-max-%d", out)))
+			break
+		}
+	}
+	// raw headers whose extra is a NON-canonical protobuf encoding (Marshal(Unmarshal(x)) != x):
+	// unknown fields, reordered fields, non-minimal varints, unpacked repeated, repeated submessage
+	for _, x := range [][]byte{
+		{10, 9, 8, 10, 16, 4, 26, 3, 1, 2, 3},                // canonical
+		{10, 9, 8, 10, 16, 4, 26, 3, 1, 2, 3, 40, 5},         // unknown field 5 after
+		{40, 5, 10, 9, 8, 10, 16, 4, 26, 3, 1, 2, 3},         // unknown field 5 before
+		{10, 9, 26, 3, 1, 2, 3, 16, 4, 8, 10},                // fields in reverse order
+		{10, 5, 8, 138, 0, 16, 4},                            // Data = 10 as a two-byte varint
+		{10, 8, 8, 10, 24, 1, 24, 2, 24, 3},                  // volume ids unpacked
+		{10, 2, 8, 10, 10, 2, 16, 4},                         // the submessage twice (merged)
+		{10, 4, 8, 10, 8, 11},                                // a scalar twice (last wins)
+		{10, 0},                                              // empty submessage
+		{10, 2, 8, 0},                                        // explicit default value
+		{18, 3, 1, 2, 3},                                     // only an unknown length-delimited field
+		{10, 5, 8},                                           // truncated submessage: error
+		{15},                                                 // wire type 7: error
+		{10, 3, 8, 10},                                       // length beyond the data: error
+		{8, 1},                                               // field 1 with the wrong wire type
+		{10, 6, 8, 255, 255, 255, 255, 31},                   // uint32 overflowing varint
+	} {
+		for _, tail := range [][]byte{{}, {0, 0, 0, 0, 0, 0, 0, 0, 1, 2, 3}} {
+			f := append([]byte{3, 12, 15, 3, 0, 7, byte(len(x) >> 8), byte(len(x))}, x...)
+			e = append(e, sbRead(append(f, tail...)))
+		}
+	}
 	for _, f := range [][]byte{{}, {3}, {3, 0, 0, 0, 0, 0, 0}, {3, 0, 0, 0, 0, 0, 0, 0}, {3, 3, 0, 0, 0, 0, 0, 0}, {3, 222, 1, 2, 3, 4, 0, 0}, {3, 223, 0, 0, 0, 0, 0, 0},
 		{3, 1, 0, 0, 0, 0, 0, 1, 0}, {3, 1, 0, 0, 0, 0, 0, 2, 8, 1}, {3, 12, 15, 3, 0, 7, 0, 11, 10, 9, 8, 10, 16, 4, 26, 3, 1, 2, 3},
 		{3, 12, 15, 3, 0, 7, 0, 11, 10, 9, 8, 10, 16, 4, 26, 3, 1, 2, 3, 0, 0, 0, 0, 0}, {3, 12, 15, 3, 0, 7, 0, 11, 10, 9, 8, 10, 16, 4, 26, 3, 1, 2},
 		{3, 12, 15, 3, 0, 7, 0, 11}, {3, 1, 0, 0, 0, 0, 0, 2, 255, 255}, {3, 1, 0, 0, 0, 0, 0, 4, 10, 2, 8, 10}, {3, 1, 0, 0, 0, 0, 1, 0}, {0, 12, 9, 9, 255, 255, 0, 0, 1, 2, 3}, {255, 255, 255, 255, 255, 255, 255, 255}} {
 		e = append(e, sbRead(f))
 	}
-	for _, k := range []uint64{0, 1, 0xffffffff, 0x100000000, 0xffffffffffffffff} {
-		for _, o := range []uint32{0, 1, 0xff, 0x100, 0xffffffff} {
-			for _, s := range []int32{0, 1, -1, 255, 256, 2147483647, -2147483648, -2} {
-				e = append(e, idxEnc(k, o, s))
-			}
-		}
-	}
-	for _, a := range []int64{0, 8, 16, 24, 7, 9, 2040, 34359738360, 34359738368, 34359738376, 1 << 40} {
-		e = append(e, offEnc(a))
-	}
+	e = append(e, enumeratedOffsets()...)
 	return e
 }
 
@@ -374,7 +522,53 @@ func randomGen(r *hx.Rng) gen {
 		}
 		return string(b)
 	}
-	switch r.Intn(12) {
+	switch r.Intn(18) {
+	case 12:
+		return randomOffsetGen(r)
+	case 13: // a random super block, with or without extra
+		var extra *master_pb.SuperBlockExtra
+		label := ""
+		if r.Chance(2, 3) {
+			ids := make([]uint32, r.PickInt([]int{0, 0, 1, 3, 20, 130, 400}))
+			for i := range ids {
+				ids[i] = uint32(r.Next() >> uint(r.Range(32, 63)))
+			}
+			extra = &master_pb.SuperBlockExtra{ErasureCoding: &master_pb.SuperBlockExtra_ErasureCoding{Data: uint32(r.Intn(300)), Parity: uint32(r.Intn(20)), VolumeIds: ids}}
+			label = "-extra"
+			if r.Chance(1, 8) {
+				extra = &master_pb.SuperBlockExtra{}
+				label = "-empty-extra"
+			}
+		}
+		return sbEnc(byte(r.PickInt([]int{1, 2, 3, 3, 3, 0, 4, 255})), r.Intn(3), r.Intn(3), r.Intn(3), byte(r.Intn(256)), byte(r.PickInt([]int{0, 1, 2, 3, 4, 5, 6, 7, 200})), uint16(r.Next()), extra, label)
+	case 14: // a header followed by a mutated protobuf extra
+		x := []byte{10, 9, 8, 10, 16, 4, 26, 3, 1, 2, 3}
+		switch r.Intn(4) {
+		case 0:
+			x[r.Intn(len(x))] = byte(r.Next())
+		case 1:
+			x = append(x, r.Bytes(r.Range(1, 4))...)
+		case 2:
+			x = x[:r.Range(0, len(x)-1)]
+		default:
+			x = r.Bytes(r.Range(1, 12))
+		}
+		sz := len(x) + r.PickInt([]int{0, 0, 0, 1, -1})
+		if sz < 0 {
+			sz = 0
+		}
+		f := append([]byte{byte(r.PickInt([]int{1, 2, 3})), byte(r.PickInt([]int{0, 1, 12, 100, 222})), byte(r.Next()), byte(r.Intn(8)), byte(r.Next()), byte(r.Next()), byte(sz >> 8), byte(sz)}, x...)
+		return sbRead(append(f, r.Bytes(r.Intn(4))...))
+	case 15:
+		return vidEnc(uint32(r.Next() >> uint(r.Range(32, 63))))
+	case 16:
+		d := int64(-1)
+		if r.Bool() {
+			d = int64(r.Next() >> uint(r.Range(1, 63)))
+		}
+		return pathEnc(r.Next()>>uint(r.Intn(64)), uint32(r.Next()), d)
+	case 17:
+		return ttlU32(uint32(r.Next() >> uint(r.Range(32, 63))))
 	case 0:
 		return fidEnc(uint32(r.Next()), r.Next()>>uint(r.Intn(64)), uint32(r.Next()))
 	case 1:
@@ -396,7 +590,7 @@ func randomGen(r *hx.Rng) gen {
 	case 9:
 		return vidEnc(uint32(r.Next() >> uint(r.Range(32, 63))))
 	case 10:
-		return idxEnc(r.Next()>>uint(r.Intn(64)), uint32(r.Next()), int32(uint32(r.Next())))
+		return randomOffsetGen(r)
 	default:
 		f := r.Bytes(r.Range(6, 12))
 		if r.Chance(2, 3) && len(f) >= 8 {
@@ -409,23 +603,37 @@ func randomGen(r *hx.Rng) gen {
 
 func main() {
 	out := hx.Flags("C08", 250)
-	out.Rule = "shard k (seed mod 1000) takes the k-th slice (4/5 of its cases) of a fixed enumeration, cyclically: all 27 replica placements and some invalid ones, all 256 placement bytes, every string over {0,1,2,3} of length 0..4 plus malformed strings, all TTL (count 0..255, unit 0..7) pairs plus odd units, TTL strings built from boundary counts x units plus malformed ones, volume id strings around 2^32 and 2^64, boundary file ids (keys with 0..8 leading zero bytes x boundary cookies), malformed file ids and ParsePath inputs (with _delta), super blocks (versions 1..3, with/without extra) and raw headers, index entries and offsets at boundaries; the remaining 1/5 are random file ids, paths, TTL strings, volume ids, index entries and headers; the first two cases of every shard are the witnesses of two repaired defects (super block with extra metadata; replica placement string \"1\"); non-trivial = an accepted decode / an encodable value; distinct = kind + input"
+	out.Rule = "shard k (seed mod 1000) takes the k-th slice (9/10 of its cases) of a fixed enumeration, cyclically: all 27 replica placements and some invalid ones, all 256 placement bytes, every string over {0,1,2,3} of length 0..4 plus malformed strings, all TTL (count 0..255, unit 0..7) pairs plus odd units, TTL strings built from boundary counts x units plus malformed ones, volume id strings around 2^32 and 2^64, boundary file ids (keys with 0..8 leading zero bytes x boundary cookies) through ParseFileIdFromString and ParsePath (with _delta), malformed file ids and ParsePath inputs, TTL integers 0..300 and with high bits, super blocks (versions 1..3 and odd ones, with/without extra, extra up to 65534 bytes), raw headers with canonical / non-canonical / broken protobuf extras (each also re-encoded and re-read), index entries and offsets at boundaries; the remaining 1/10 are random file ids, paths, TTL strings and integers, volume ids, index entries, offsets, super blocks and headers; the first four cases of every shard are the witnesses of two repaired defects (super block with extra metadata; replica placement string \"1\") and of the two known findings (file id with key 0; TTL integer 0x10501); non-trivial = an accepted decode / an encodable value; distinct = kind + input"
 	all := enumerated()
+	witnesses := 4
+	if types.OffsetSize == 5 {
+		// the 5BytesOffset build differs in Offset / index entries only: this variant runs those
+		all = enumeratedOffsets()
+		witnesses = 0
+		out.Rule = "5BytesOffset build: index entries (keys x offsets around 2^32 and 2^40 x sizes) and ToOffset/ToActualOffset around 32 GiB and 8 TiB from a fixed enumeration (9/10), random ones (1/10); non-trivial = offset inside the representable range"
+	}
 	out.Extra["enumerated"] = len(all)
+	out.Extra["offset_size"] = types.OffsetSize
 	root := hx.NewRng(out.Seed)
 	shard := int(out.Seed % 1000)
 	ec := &master_pb.SuperBlockExtra{ErasureCoding: &master_pb.SuperBlockExtra_ErasureCoding{Data: 10, Parity: 4, VolumeIds: []uint32{1, 2, 3}}}
-	slice := out.N * 4 / 5
+	slice := out.N * 9 / 10
 	for i := 0; i < out.N; i++ {
 		r := root.Fork()
 		var g gen
 		switch {
-		case i == 0:
+		case i == 0 && witnesses > 0:
 			g = sbEnc(3, 0, 1, 2, 15, 3, 7, ec, "-extra") // repaired: extra is read back
-		case i == 1:
+		case i == 1 && witnesses > 0:
 			g = rpStr("1") // repaired: rejected
+		case i == 2 && witnesses > 0:
+			g = fidEnc(3, 0, 0x637037d6) // finding 0: "3,637037d6" does not parse back
+		case i == 3 && witnesses > 0:
+			g = ttlU32(0x10501) // finding 1: decoded as 5m
 		case i < slice:
-			g = all[(shard*(slice-2)+(i-2))%len(all)]
+			g = all[(shard*(slice-witnesses)+(i-witnesses))%len(all)]
+		case types.OffsetSize == 5:
+			g = randomOffsetGen(r)
 		default:
 			g = randomGen(r)
 		}
